@@ -16,28 +16,15 @@ out here (`natDigits`), they are not Lean's `toString`.
 
 `binascii.crc32` is a parameter of `moduleName`.
 -/
+import CffiVerif.Model.PyText
+
 namespace CffiVerif.Flatten
 
 abbrev Str := List Nat
 
-/-! ### printing numbers -/
+/-! ### printing numbers: `digitChar`, `digitsAux`, `natDigits`, `intDigits` of `Model/PyText.lean` -/
 
-/-- character of the digit `d < 16`: `0-9`, `a-f` -/
-def digitChar (d : Nat) : Nat := if d < 10 then 48 + d else 87 + d
-
-/-- most significant digit first; `fuel > n` is always enough -/
-def digitsAux (b : Nat) : Nat → Nat → List Nat → List Nat
-  | 0, _, acc => acc
-  | fuel + 1, n, acc =>
-    if n < b then digitChar n :: acc
-    else digitsAux b fuel (n / b) (digitChar (n % b) :: acc)
-
-/-- digits of `n` in base `b` (`2 ≤ b ≤ 16`), no leading zero, `"0"` for 0 -/
-def natDigits (b n : Nat) : List Nat := digitsAux b (n + 1) n []
-
-/-- `'%d' % i` -/
-def intDigits (i : Int) : List Nat :=
-  if i < 0 then 45 :: natDigits 10 i.natAbs else natDigits 10 i.toNat
+export CffiVerif.PyText (digitChar digitsAux natDigits intDigits pyHex)
 
 /-! ### values -/
 
@@ -247,9 +234,6 @@ def odds {α : Type} : List α → List α
 
 /-- `s.lstrip(chars)` -/
 def lstrip (chars : List Nat) (s : Str) : Str := s.dropWhile (fun c => chars.contains c)
-
-/-- `hex(n)` -/
-def pyHex (n : Nat) : Str := 48 :: 120 :: natDigits 16 n
 
 /-- `k1 = hex(crc).lstrip('0x')` (the `rstrip('L')` of Python 2 removes nothing:
 no hex digit is `L`) -/
